@@ -183,7 +183,10 @@ func (d *SnapDriver) Step(x *Exec, n *Node, i int) StepResult {
 		}
 		r := rd("listNodes", int64(e))
 		if !r.Halt {
-			return StepResult{V: Viol("listNodes-fault", r.Fault, where)}
+			if live {
+				return StepResult{V: Viol("listNodes-fault", r.Fault, where)}
+			}
+			continue // "nothing (empty or an error)" for an epoch outside the history
 		}
 		got, _ := r.Ret0().([]any)
 		if live {
